@@ -771,6 +771,49 @@ def gaussian_ctor_cases(ctx, ir):
     return reqs, impl, descr
 
 
+def short_lived_pairs(n=80):
+    """valid pairs are constructed (with validation) and dropped at once; right afterwards invalid pairs made of NEW function objects are
+    constructed with validation - each must be rejected, whatever was validated before and wherever the new functions live in memory.
+    Returns (constructions, failure | None)."""
+    from quantum_gates._gates.pulse import Pulse
+    made = 0
+    for k in range(n):
+        def f(x):
+            return 1.0 + 0 * x
+        def F(x):
+            return x
+        Pulse(pulse=f, parametrization=F, perform_checks=True)
+        del f, F
+        bad_kind = k % 3
+        if bad_kind == 0:
+            def g(x):                      # not normalised
+                return 2.0 + 0 * x
+            def G(x):
+                return x
+        elif bad_kind == 1:
+            def g(x):                      # parametrisation does not run from 0 to 1
+                return 1.0 + 0 * x
+            def G(x):
+                return 0.5 * x
+        else:
+            def g(x):                      # parametrisation is not the running integral of the waveform
+                return 1.0 + 0 * x
+            def G(x):
+                return x * x
+        made += 2
+        try:
+            Pulse(pulse=g, parametrization=G, perform_checks=True)
+        except AssertionError:
+            del g, G
+            continue
+        except Exception as e:              # noqa
+            return made, f"construction {k}: an invalid pair raised {type(e).__name__} instead of the validation's AssertionError"
+        return made, (f"construction {k}: after a valid pair had been validated and dropped, the invalid pair "
+                      f"{['waveform 2 (not normalised), F = x', 'waveform 1, F = x/2 (does not reach 1)', 'waveform 1, F = x^2 (not its running integral)'][bad_kind]} "
+                      f"made of new function objects was accepted with perform_checks=True")
+    return made, None
+
+
 def accepted_edge_objects():
     """the first sentence of C13 on the inputs where it is most likely to fail: whatever `GaussianPulse(loc, scale)` ACCEPTS must be a
     pulse - finite non-negative waveform, parametrisation 0 at 0 and 1 at 1.  Degenerate standard deviations (0, negative, nan, inf,
@@ -947,6 +990,9 @@ def main(ctx):
         except Exception as e:                              # noqa
             broken.append(f"Gaussian constructor correspondence: {type(e).__name__}: {str(e)[:300]}")
     cov["outside_domain_probes"] = outside_domain_probes()
+    n_sl, sl_bad = short_lived_pairs(240 if ctx.thorough else 80)
+    ctx.count(n_sl)
+    cov["short_lived_pair_constructions"] = n_sl
     n_edge, edge_bad = accepted_edge_objects()
     ctx.count(n_edge)
     cov["accepted_edge_objects_checked"] = n_edge
@@ -1093,6 +1139,10 @@ def main(ctx):
         unexplained += 1
         ctx.violation({"kind": "oracle", "part": "validator", "family": c["family"]}, validator_replay(c, what),
                       f"Pulse(f, F, perform_checks={c.get('checks', True)}) on family '{c['family']}': {what}")
+    if sl_bad:
+        unexplained += 1
+        ctx.violation({"kind": "oracle", "part": "validator-history"}, {"kind": "short-lived", "failure": sl_bad},
+                      f"Pulse(..., perform_checks=True) after earlier validations: {sl_bad}")
     for d, what in edge_bad[:1]:
         unexplained += 1
         ctx.violation({"kind": "oracle", "part": "gaussian-degenerate-input-accepted"},
@@ -1140,6 +1190,10 @@ def replay(ctx, path):
             return 1 if info["failures"] else 0
         print("  constructor raised", info.get("exc"), info.get("msg"))
         return 1 if "raised" in rp.get("failure", "") or "rejects" in rp.get("failure", "") else 0
+    if kind == "short-lived":
+        n, bad = short_lived_pairs(240)
+        print("short-lived valid pairs followed by invalid pairs:", bad or "oracle holds (every invalid pair rejected)")
+        return 1 if bad else 0
     if kind == "edge":
         n, bad = accepted_edge_objects()
         for d, what in bad:
